@@ -163,3 +163,26 @@ Definition bw_serialized_bytes (A : bw_automaton V) : nat :=
   (4 + 12 * length (bw_states A)) + (4 + (sv_bytes SV + 8) * length (bw_outputs A)) + 1 + 4.
 
 End Ser.
+
+(* "every stored field fits its Rust integer type", as a boolean (evaluated by the driver on every
+   automaton the model builds; Proofs/SerProps.v proves it sound for the round-trip theorem) *)
+Definition u32b (x : N) : bool := x <? 4294967296.
+Definition bstate_okb (s : bstate) : bool := u32b (b_base s) && u32b (b_fail s) && u32b (b_opos_ch s).
+Definition cstate_okb (s : cstate) : bool :=
+  u32b (c_base s) && u32b (c_check s) && u32b (c_fail s) && u32b (c_outpos s).
+Section RangesB.
+Variable V : Type.
+Variable domb : V -> bool.
+Definition output_okb (o : output V) : bool :=
+  domb (o_value o) && u32b (o_length o) && u32b (o_parent o).
+Definition bw_ranges_b (A : bw_automaton V) : bool :=
+  forallb bstate_okb (bw_states A) && forallb output_okb (bw_outputs A)
+  && u32b (N.of_nat (length (bw_states A))) && u32b (N.of_nat (length (bw_outputs A)))
+  && u32b (bw_num_states A).
+Definition mapper_okb (m : mapper) : bool :=
+  forallb u32b (mp_table m) && u32b (N.of_nat (length (mp_table m))) && u32b (mp_alpha m).
+Definition cw_ranges_b (A : cw_automaton V) : bool :=
+  forallb cstate_okb (cw_states A) && mapper_okb (cw_mapper A) && forallb output_okb (cw_outputs A)
+  && u32b (N.of_nat (length (cw_states A))) && u32b (N.of_nat (length (cw_outputs A)))
+  && u32b (cw_num_states A).
+End RangesB.
